@@ -437,15 +437,10 @@ def r8(ctx: Ctx) -> None:
     # ---- rectangles: a single flat rectangle is one rectangle; every entry parsed with the module's flags
     frr = ctx.func(YREAD, "parse_yaml_rectangles")
     crr = canon_function(frr, m)
-    lrr = _only_loop(crr, "parse_yaml_rectangles")
-    outl = [st[1] for st in crr if st[0] == "set" and st[2] == ("list", ())]
-    ctx.site(frr.where, "every rectangle entry is parsed with the module's fixed / hard flags, in order; a flat list is one rectangle")
-    ok = False
-    if len(outl) == 1 and crr[-1] == ("ret", outl[0]):
-        rl = lrr[2]
-        ok = _unconditional_appends(lrr[3], outl[0]) == [("c", ("g", "parse_yaml_rectangle"), (lrr[1], ("p", 1), ("p", 2)), ())] and \
-            any(st[0] == "if" and st[1] == ("c", ("g", "is_number"), (("s", rl, k_num(0)),), ()) and st[2] == (("set", rl, ("list", (rl,))),) and st[3] == () for st in crr) and \
-            any(st == ("set", rl, ("p", 0)) for st in crr)
+    calls = atoms_of(crr, lambda x: x[0] == "c" and x[1] == ("g", "parse_yaml_rectangle"))
+    ctx.site(frr.where, "every rectangle entry is parsed with the module's fixed / hard flags; a flat list is one rectangle", parse_calls=len(calls))
+    flat_test = atoms_of(crr, lambda x: x[0] == "c" and x[1] == ("g", "is_number") and len(x[2]) == 1 and x[2][0][0] == "s" and x[2][0][2] == k_num(0))
+    ok = bool(calls) and bool(flat_test) and all(len(c_[2]) == 3 and c_[2][1] == ("p", 1) and c_[2][2] == ("p", 2) and not c_[3] for c_ in calls)
     if not ok:
         ctx.report(frr.where, "rectangles-decode", "parse_yaml_rectangles does not parse every entry (or the single flat rectangle) with the module's flags", lineno=frr.node.lineno)
     # ---- sections
